@@ -76,6 +76,12 @@ def generate(seed, tier):
             elif rel == 'disjoint':
                 pb[key] = str(ipaddress.ip_network((int(net.network_address) ^ (1 << (maxp - 3)), net.prefixlen), strict=False))
     sc['meta']['relation'] = rel
+    if r.random() < 0.2:
+        # the responder is a conforming third party (sim/refpeer.py) with B's (drifted) policy: it narrows to either of the offered selectors
+        # or to its own smaller entry, as RFC 7296 2.9 allows, and keeps the selectors on a rekey
+        if sc['meta'].get('auth') == 'psk':
+            workload.to_refpeer(sc, r)
+            return sc
     if r.random() < 0.4:
         from sim import byz
         sc['byz'] = {'kind': r.choice(byz.KINDS_C12), 'seed': r.randrange(2 ** 31)}
@@ -85,7 +91,8 @@ def generate(seed, tier):
 
 def judge(w, tap, scenario, reach):
     V = lambda cls, sig, detail: w.violation(PROP, cls, sig, detail)
-    conf = {n: configs.read_conf(nd['conf']) for n, nd in scenario['nodes'].items()}
+    nodes = workload.refpeer_nodes(scenario) if scenario.get('refpeer') else scenario['nodes']
+    conf = {n: configs.read_conf(nd['conf']) for n, nd in nodes.items()}
 
     def conn_of(node, my, peer):
         return conf[node].get((ipaddress.ip_address(my), ipaddress.ip_address(peer)))
@@ -188,6 +195,8 @@ def run(scenario):
         ctx['cov'] = workload.Coverage(w)
         ctx['tap'] = Wiretap(w, check_reencode=False)
         ctx['reach'] = {}
+        if scenario.get('refpeer'):
+            ctx['peer'] = workload.attach_refpeer(w, scenario)
         if scenario.get('byz'):
             from sim import byz
             from sim.interpose import Interposer
@@ -213,6 +222,23 @@ def run(scenario):
             if v is not None:
                 w.violation(PROP, v[0], v[1], v[2])
                 return
+        if scenario.get('refpeer'):
+            peer = ctx['peer']
+            ctx['reach']['batch.refpeer'] = 1
+            for k_, v_ in peer.counts.items():
+                ctx['reach']['refpeer.' + k_] = v_
+            ctx['reach']['refpeer.narrow.' + peer.k['narrow']] = 1
+            # what the conforming responder granted and the daemon installed: inside the daemon's own offer (the reference peer never widens),
+            # equal to the replaced selectors on a rekey, and the kernel selector of both SAs of the daemon denotes exactly the granted selectors
+            judge(w, workload.PeerView(peer), scenario, ctx['reach'])
+            installed = newsa_index(w.nodes['A'])
+            for ch in peer.children:
+                q = quad(w, ch, {'A': installed})
+                if q is not None and (q[0] is not None) != (q[2] is not None):
+                    w.violation(PROP, 'granted_child_sa_half_installed', {}, f'CHILD_SA {ch["spi_init"].hex()}/{ch["spi_resp"].hex()} granted by the reference peer: '
+                                f'the daemon installed only its {"outbound" if q[0] is not None else "inbound"} SA')
+                    return
+            return
         judge(w, ctx['tap'], scenario, ctx['reach'])
     ctx['at_end'] = at_end
     w = execute(scenario, setup, ctx)
@@ -225,7 +251,7 @@ def run(scenario):
     judged = reach.get('children_judged', 0) + reach.get('refusals_expected', 0)
     st = workload.base_stats(w, ctx['cov'], {'reach': reach, 'nontrivial': judged >= 2})
     import hashlib
-    ca, cb = scenario['nodes']['A']['conf']['to-b'], scenario['nodes']['B']['conf']['to-a']
+    ca, cb = scenario['nodes']['A']['conf']['to-b'], (scenario['refpeer']['conf'] if scenario.get('refpeer') else scenario['nodes']['B']['conf'])['to-a']
     shape = lambda c: [(p.get('my_subnet'), p.get('peer_subnet'), p.get('my_port'), p.get('peer_port'), p.get('ip_proto'), p.get('mode')) for p in c['protect']]
     st['sig'] = hashlib.sha256(repr((shape(ca), shape(cb), rel)).encode()).hexdigest()[:16]
     if scenario.get('seed', 0) % 61 == 0 or w.violations:
